@@ -109,54 +109,76 @@ type ServerProtocolSession struct {
 type ProxyServerProtocol struct {
 	clientId       [16]byte
 	serverProtocol ServerProtocol
+	// the protocol the proxy forwards to once it has been re-pointed: a closing connection, a client that
+	// re-attaches and the connection sweeper re-point proxies while timer, acknowledgement and
+	// other connection goroutines use them, so the replacement is published and read atomically
+	// (a torn read of the two-word interface value calls a method on the wrong object)
+	repointed atomic.Value
+}
+
+type proxyServerProtocolTarget struct {
+	serverProtocol ServerProtocol
+}
+
+// target returns the protocol the proxy currently forwards to
+func (self *ProxyServerProtocol) target() ServerProtocol {
+	if target := self.repointed.Load(); target != nil {
+		return target.(proxyServerProtocolTarget).serverProtocol
+	}
+	return self.serverProtocol
+}
+
+// setTarget re-points a proxy that other goroutines may be using
+func (self *ProxyServerProtocol) setTarget(serverProtocol ServerProtocol) {
+	self.repointed.Store(proxyServerProtocolTarget{serverProtocol})
 }
 
 func (self *ProxyServerProtocol) Init(clientId [16]byte) error {
-	return self.serverProtocol.Init(clientId)
+	return self.target().Init(clientId)
 }
 
 func (self *ProxyServerProtocol) Lock() {
-	self.serverProtocol.Lock()
+	self.target().Lock()
 }
 
 func (self *ProxyServerProtocol) Unlock() {
-	self.serverProtocol.Unlock()
+	self.target().Unlock()
 }
 
 func (self *ProxyServerProtocol) Read() (protocol.CommandDecode, error) {
-	return self.serverProtocol.Read()
+	return self.target().Read()
 }
 
 func (self *ProxyServerProtocol) Write(command protocol.CommandEncode) error {
-	return self.serverProtocol.Write(command)
+	return self.target().Write(command)
 }
 
 func (self *ProxyServerProtocol) ReadCommand() (protocol.CommandDecode, error) {
-	return self.serverProtocol.ReadCommand()
+	return self.target().ReadCommand()
 }
 
 func (self *ProxyServerProtocol) WriteCommand(command protocol.CommandEncode) error {
-	return self.serverProtocol.WriteCommand(command)
+	return self.target().WriteCommand(command)
 }
 
 func (self *ProxyServerProtocol) Process() error {
-	return self.serverProtocol.Process()
+	return self.target().Process()
 }
 
 func (self *ProxyServerProtocol) ProcessParse(buf []byte) error {
-	return self.serverProtocol.ProcessParse(buf)
+	return self.target().ProcessParse(buf)
 }
 
 func (self *ProxyServerProtocol) ProcessBuild(command protocol.ICommand) error {
-	return self.serverProtocol.ProcessBuild(command)
+	return self.target().ProcessBuild(command)
 }
 
 func (self *ProxyServerProtocol) ProcessCommad(command protocol.ICommand) error {
-	return self.serverProtocol.ProcessCommad(command)
+	return self.target().ProcessCommad(command)
 }
 
 func (self *ProxyServerProtocol) ProcessLockCommand(command *protocol.LockCommand) error {
-	return self.serverProtocol.ProcessLockCommand(command)
+	return self.target().ProcessLockCommand(command)
 }
 
 func (self *ProxyServerProtocol) ProcessLockResultCommand(command *protocol.LockCommand, result uint8, lcount uint16, lrcount uint8, data []byte) error {
@@ -164,14 +186,14 @@ func (self *ProxyServerProtocol) ProcessLockResultCommand(command *protocol.Lock
 }
 
 func (self *ProxyServerProtocol) ProcessLockResultCommandLocked(command *protocol.LockCommand, result uint8, lcount uint16, lrcount uint8, data []byte) error {
-	if self.serverProtocol == defaultServerProtocol {
+	if self.target() == defaultServerProtocol {
 		defaultServerProtocol.slock.clientsGlock.Lock()
-		if self.serverProtocol == defaultServerProtocol {
+		if self.target() == defaultServerProtocol {
 			if serverProtocol, ok := defaultServerProtocol.slock.clients[self.clientId]; ok {
 				defaultServerProtocol.slock.clientsGlock.Unlock()
 				err := serverProtocol.AddProxy(self)
 				if err == nil {
-					self.serverProtocol = serverProtocol
+					self.setTarget(serverProtocol)
 				}
 				return serverProtocol.ProcessLockResultCommandLocked(command, result, lcount, lrcount, data)
 			}
@@ -180,7 +202,7 @@ func (self *ProxyServerProtocol) ProcessLockResultCommandLocked(command *protoco
 		}
 		defaultServerProtocol.slock.clientsGlock.Unlock()
 	}
-	return self.serverProtocol.ProcessLockResultCommandLocked(command, result, lcount, lrcount, data)
+	return self.target().ProcessLockResultCommandLocked(command, result, lcount, lrcount, data)
 }
 
 func (self *ProxyServerProtocol) Close() error {
@@ -188,8 +210,8 @@ func (self *ProxyServerProtocol) Close() error {
 }
 
 func (self *ProxyServerProtocol) GetStream() *Stream {
-	if self.serverProtocol != nil {
-		return self.serverProtocol.GetStream()
+	if self.target() != nil {
+		return self.target().GetStream()
 	}
 	return nil
 }
@@ -202,34 +224,34 @@ func (self *ProxyServerProtocol) AddProxy(proxyServerProtocol *ProxyServerProtoc
 	if self == proxyServerProtocol {
 		return nil
 	}
-	return self.serverProtocol.AddProxy(proxyServerProtocol)
+	return self.target().AddProxy(proxyServerProtocol)
 }
 
 func (self *ProxyServerProtocol) RemoteAddr() net.Addr {
-	if self.serverProtocol != nil {
-		return self.serverProtocol.RemoteAddr()
+	if self.target() != nil {
+		return self.target().RemoteAddr()
 	}
 	return &net.TCPAddr{IP: []byte("0.0.0.0"), Port: 0, Zone: ""}
 }
 
 func (self *ProxyServerProtocol) GetLockCommand() *protocol.LockCommand {
-	return self.serverProtocol.GetLockCommandLocked()
+	return self.target().GetLockCommandLocked()
 }
 
 func (self *ProxyServerProtocol) GetLockCommandLocked() *protocol.LockCommand {
-	return self.serverProtocol.GetLockCommandLocked()
+	return self.target().GetLockCommandLocked()
 }
 
 func (self *ProxyServerProtocol) FreeLockCommand(command *protocol.LockCommand) error {
-	return self.serverProtocol.FreeLockCommandLocked(command)
+	return self.target().FreeLockCommandLocked(command)
 }
 
 func (self *ProxyServerProtocol) FreeLockCommandLocked(command *protocol.LockCommand) error {
-	return self.serverProtocol.FreeLockCommandLocked(command)
+	return self.target().FreeLockCommandLocked(command)
 }
 
 func (self *ProxyServerProtocol) FreeCollect() error {
-	return self.serverProtocol.FreeCollect()
+	return self.target().FreeCollect()
 }
 
 type DefaultServerProtocol struct {
@@ -238,7 +260,7 @@ type DefaultServerProtocol struct {
 }
 
 func NewDefaultServerProtocol(slock *SLock) *DefaultServerProtocol {
-	proxy := &ProxyServerProtocol{[16]byte{}, nil}
+	proxy := &ProxyServerProtocol{clientId: [16]byte{}}
 	serverProtocol := &DefaultServerProtocol{slock, proxy}
 	proxy.serverProtocol = serverProtocol
 	return serverProtocol
@@ -425,7 +447,7 @@ type MemWaiterServerProtocol struct {
 }
 
 func NewMemWaiterServerProtocol(slock *SLock) *MemWaiterServerProtocol {
-	proxy := &ProxyServerProtocol{[16]byte{}, nil}
+	proxy := &ProxyServerProtocol{clientId: [16]byte{}}
 	memWaiterServerProtocol := &MemWaiterServerProtocol{slock, &sync.Mutex{}, nil, make([]*ProxyServerProtocol, 0), make([]*protocol.LockCommand, FREE_COMMAND_MAX_SIZE),
 		0, NewLockCommandQueue(4, 16, FREE_COMMAND_QUEUE_INIT_SIZE), NewServerProtocolFreeCollector(),
 		make(map[[16]byte]chan *protocol.LockResultCommand, 4096), nil, 0, false}
@@ -527,7 +549,7 @@ func (self *MemWaiterServerProtocol) Close() error {
 
 	self.closed = true
 	for _, proxy := range self.proxys {
-		proxy.serverProtocol = defaultServerProtocol
+		proxy.setTarget(defaultServerProtocol)
 	}
 	self.proxys = self.proxys[:1]
 	_ = self.slock.removeServerProtocol(self.session)
@@ -704,7 +726,7 @@ type BinaryServerProtocol struct {
 }
 
 func NewBinaryServerProtocol(slock *SLock, stream *Stream) *BinaryServerProtocol {
-	proxy := &ProxyServerProtocol{[16]byte{}, nil}
+	proxy := &ProxyServerProtocol{clientId: [16]byte{}}
 	serverProtocol := &BinaryServerProtocol{slock, &sync.Mutex{}, stream, nil, make([]*ProxyServerProtocol, 0), make([]*protocol.LockCommand, FREE_COMMAND_MAX_SIZE),
 		0, NewLockCommandQueue(4, 16, FREE_COMMAND_QUEUE_INIT_SIZE), NewServerProtocolFreeCollector(),
 		nil, make([]byte, 64), nil, nil, 0, 0, false, false}
@@ -764,7 +786,7 @@ func (self *BinaryServerProtocol) Close() error {
 
 	self.closed = true
 	for _, proxy := range self.proxys {
-		proxy.serverProtocol = defaultServerProtocol
+		proxy.setTarget(defaultServerProtocol)
 	}
 	self.proxys = self.proxys[:1]
 	_ = self.slock.removeServerProtocol(self.session)
@@ -1985,7 +2007,7 @@ type TextServerProtocol struct {
 }
 
 func NewTextServerProtocol(slock *SLock, stream *Stream) *TextServerProtocol {
-	proxy := &ProxyServerProtocol{[16]byte{}, nil}
+	proxy := &ProxyServerProtocol{clientId: [16]byte{}}
 	parser := protocol.NewTextParser(make([]byte, 1024), make([]byte, 1024))
 	serverProtocol := &TextServerProtocol{slock, &sync.Mutex{}, stream, nil, make([]*ProxyServerProtocol, 0), make([]*protocol.LockCommand, FREE_COMMAND_MAX_SIZE),
 		0, NewLockCommandQueue(4, 16, FREE_COMMAND_QUEUE_INIT_SIZE), NewServerProtocolFreeCollector(),
@@ -2065,7 +2087,7 @@ func (self *TextServerProtocol) Close() error {
 
 	self.closed = true
 	for _, proxy := range self.proxys {
-		proxy.serverProtocol = defaultServerProtocol
+		proxy.setTarget(defaultServerProtocol)
 	}
 	self.proxys = self.proxys[:1]
 	_ = self.slock.removeServerProtocol(self.session)
